@@ -344,6 +344,25 @@ func runC11(r *core.Run) {
 				r.Probe("keep-going-rotation-hit-by-a-fault")
 			}
 		}
+		// The same rotation with the caller giving up part-way: the command's context is cancelled at
+		// one of its calls. Steps that look at the context fail there; steps that do not (a local
+		// store) go on. Whatever gets written, every prefix of it is a consistent store.
+		if r.Chance(30, "caller-cancels?") {
+			cc := a.Clone()
+			cc.Now = a.Now
+			cc.Disk = pre.Snapshot()
+			plan := seams.NewPlanNone(r)
+			plan.CancelArmed, plan.CancelAt = true, r.Intn(30, "cancel-at-call")
+			cc.Plan, cc.Decorate = plan, true
+			cc.Disk.Plan = plan
+			err, _ := cc.Rotate(ra)
+			cc.Decorate = false
+			r.Eventf("rotate with the caller cancelling at call %d (cancelled=%v) -> %s, durable writes: %s", plan.CancelAt, !plan.CancelArmed, errClass(err, false), writeNames(cc.Disk.Log))
+			checkPrefixes(r, pre, cc.Disk.Log, "rotate/caller-cancels", hist)
+			if !plan.CancelArmed {
+				r.Probe("rotation-cancelled-part-way")
+			}
+		}
 		// A rotation cut short at a drawn strict prefix, then re-run with --overwrite from there.
 		if len(writes) > 1 && r.Chance(40, "cut-and-rerun?") {
 			p := 1 + r.Intn(len(writes)-1, "cut-at")
